@@ -1,8 +1,10 @@
 from . import streams_codec, streams_sol, cli
+from . import streams_formats
 
 ID = 'C09'
-PROPS_MODULE = ['Refine.Props.C09', 'Refine.Props.C09Sol']
-STREAMS = [streams_codec.SOLB_WRITE, streams_codec.SOLB_READ] + streams_sol.STREAMS + [cli.FIELDRT, cli.FIELDRT_MPI]
+PROPS_MODULE = ['Refine.Props.C09', 'Refine.Props.C09Sol', 'Refine.Props.C09Formats']
+STREAMS = [streams_codec.SOLB_WRITE, streams_codec.SOLB_READ] + streams_sol.STREAMS + [cli.FIELDRT, cli.FIELDRT_MPI] + \
+    [streams_formats.C20_FIELDS, streams_formats.FIELDS_SER, streams_formats.FIELDS_RST_MPI, streams_formats.FIELDS_SNAP_MPI]
 EXPLANATION = (
     'Proved in Lean (Refine/Props/C09.lean): decodeSolb n (encodeSolb v s) = ok (ldim, rows) for every ldim '
     '(versions 2,3,4; 2-D and 3-D; also with the C20 count check), decodeMetricSolb (encodeMetricSolb v twod ms) = '
@@ -28,14 +30,23 @@ EXPLANATION = (
     'ASCII writers and pyio .solb bytes, with the reader chunk floor 100000 replaced through a MAX shim so that node counts '
     'that are not multiples of the chunk take several passes; the real ref_gather_metric / ref_gather_scalar_by_extension '
     '(.metric, .met, .solb, .sol, .txt, .bin, .rst) with reduce_byte_limit chunks of 1..3 rows; oracles: tensor recovered = '
-    'tensor stored by component NAME, entry g <-> vertex g on every rank.')
+    'tensor stored by component NAME, entry g <-> vertex g on every rank.  '
+    '.RST AND .SNAP READERS (work package formats; Model/FormatsBin.lean partScalarRst / partScalarSnap built on the same chunk '
+    'loop Sol.scatterFile, Props/C09Formats.lean): FIELDS_THEOREMS.  Tie: formats_fields (h_sol, one rank with ASan) and '
+    'formats_rst_mpi (np = 2, 3 under mpiexec): the real ref_part_scalar on .rst (1..3 variables x 1..3 steps, dof >= vertices) '
+    'and .snap (versions 2 and 3, 1..4 fields, vertex count n / 2n / 2n+1) files from independent writers, chunk floors from 1 '
+    'up so that several passes occur; per-rank values == model, oracle: == what an independent parser reads for that vertex.  '
+    'c20_fields_mut: the same for every header mutant the model accepts (serial).  KNOWN FINDING snap-nnode-bcast-as-int '
+    '(stream formats_snap_mpi, np = 2): the .snap reader broadcasts its 8-byte vertex count as a 4-byte integer and does not '
+    'survive a second rank (MPI_ERR_TRUNCATE); theorem snap_bcast_counterexample (Props/C20Formats.lean).')
 ASSUMPTIONS = [
     'Model/Solb.lean (streams solb_*) covers one rank; the multi-rank sum/broadcast paths of the same functions are '
     'modelled in Model/Sol.lean as World functions (Comm.bcast / Comm.sum) and tied at np = 2, 3 by the sol_*_mpi streams',
     'text files are token lists: a number is the 64-bit pattern strtod returns (harness prints %.17g); values written '
     'by the text writers are chosen exactly representable with < 16 significant digits so %.15e is exact: decimal '
     'printing/parsing itself is not modelled; %d applied to a token with a fraction, line[1024] overflow, .csv, .plt, '
-    '.snap, .restart_sol and the .rst READER are not modelled',
+    '.restart_sol are not modelled; the .rst and .snap readers are (package formats, byte level); .plt: header / zone '
+    'validation only (the values are placed by a nearest-vertex search)',
     'the reader chunk floor (100000 in the C, Gen/SolOrder.readChunkFloor) is an op parameter of the tie (MAX macro shim in '
     'the white-box include of ref_part.c, no source change); the model takes it as a parameter and '
     'reader_chunk_pos is proved for the production value',
